@@ -77,6 +77,13 @@ claim("C20", "exploration",
       "Trusted: the model in incrate/wscript.rs. The public DataWriter::wait_for_acknowledgments / async_wait_for_acknowledgments wrappers are exercised in a separate scenario once the DataWriter front-end exists (see DESIGN.md).",
       "DESIGN.md section 2, C20")
 
+claim("C02", "exploration",
+      "fault-injection property-based testing: generated fault plans (drop / duplicate / delay per datagram) over a bounded run of a real Writer and 1-2 real Readers, followed by fault-free rounds; liveness decided as a fixpoint test on a projection of the protocol state, plus a quietness check",
+      "A generated fault plan decides the fate of every datagram (DATA, DATAFRAG, HEARTBEAT, GAP, ACKNACK, NACKFRAG) exchanged between a real reliable Writer and real reliable Readers during generated writes / heartbeat ticks / timer steps / cache cleanings. Then faults stop and rounds {heartbeat tick, deliver all, fire timers to quiescence} run. "
+      "Violation: the projection of the protocol state (both sides) repeats without the readers holding every sample of the writer's history and knowing the rest unavailable; or a bound of 8+4*(samples+fragments) rounds passes; or, after convergence, heartbeat ticks and timers still emit datagrams.",
+      "Trusted: the projection contains all protocol state that matters (round bound is the backstop); timer steps wait 3 ms of real time; virtual time advances 1 s per round.",
+      "DESIGN.md section 2, C02")
+
 NOT_YET = {
 }
 
